@@ -56,6 +56,8 @@ prop("C02",
      bounds={"quick": "size cap 5, fixpoint, one-step look-ahead from every transition", "thorough": "size cap 8, fixpoint; one-step look-ahead from every transition at size cap 6"},
      runs=[dict(name="h_list", sources=["harness/h_list.c"], profile="asan",
                 args={"quick": ["--S=5"], "thorough": ["--S=8", "--lookahead=0"]}),
+           # unoptimised plain build: 400000-element lists duplicated (per-element stack use shows; under ASan the array's growth is quadratic)
+           dict(name="h_list_huge", sources=["harness/h_list.c"], profile="plain0", args={"quick": ["--only=huge"], "thorough": ["--only=huge"]}),
            dict(name="h_list_la", sources=["harness/h_list.c"], profile="asan", tiers=["thorough"],
                 args={"quick": ["--S=5"], "thorough": ["--S=6"]})],
      deadline={"quick": 200, "thorough": 3000})
@@ -130,7 +132,9 @@ prop("C05",
           "all ordered pairs (reflexivity, antisymmetry, NULL first, value order for str/ustr/mbuff) and all triples (transitivity) of pool states per class; "
           "spif_obj_comp on synthetic addresses up to 2^40 apart; non-trivial = all dup continuations, pairs that compare unequal, all triples",
      bounds={"quick": "pools of 4..11 states per class; full pair/triple sets", "thorough": "same (the space is enumerated completely in both tiers)"},
-     runs=[dict(name="h_proto", sources=["harness/h_proto.c"], profile="asan", args={})],
+     runs=[dict(name="h_proto", sources=["harness/h_proto.c"], profile="asan", args={}),
+           # plain build: buffers whose lengths differ by 2^31..2^32+1 (a calloc'ed block that is never touched)
+           dict(name="h_proto_huge", sources=["harness/h_proto.c"], profile="plain2", args={"quick": ["--only=huge", "--workers=2"], "thorough": ["--only=huge", "--workers=2"]})],
      deadline={"quick": 200, "thorough": 1200})
 
 
